@@ -124,6 +124,8 @@ def check(rep, ctx):
         rep.check(R_T, not problems, construct=key, stmt=f"tags {tv}", message="; ".join(problems), **loc(S, c))
         plan = bundle["classes"].get(key)
         err = None if plan is None else plan.get("error")
+        if err and err.get("side") == "analysis":
+            raise AnalysisError(f"plan of {key} not understood: {err.get('msg')}")
         rep.check(R_P, plan is not None and not err, construct=key, stmt=str(err),
                   message=f"plan building fails: {err}" if err else "no plan", **loc(S, c))
     rep.sample({"rule": "C13-default", "field": "kio.schema.fetch.v15.request:FetchRequest.replica_state",
